@@ -94,7 +94,10 @@ impl BranchOpsTracker {
     pub fn push_chunk(&mut self, base: &BaseBranch, start: usize, end: usize) {
         assert!(self.valid_gauge);
 
-        let base_compressed_end = std::cmp::min(end, base.node.prefix_compressed() as usize);
+        // The chunk may start within the uncompressed separators, in which case
+        // there is nothing compressed to keep.
+        let base_compressed_end =
+            std::cmp::min(end, base.node.prefix_compressed() as usize).max(start);
 
         if start != base_compressed_end {
             let chunk = KeepChunk {
